@@ -10,17 +10,17 @@ import (
 )
 
 type srvCert struct {
-	name             string
-	cert, key, ca    string
-	issuer           string   // "self" | "ca" | "other"
-	names            []string // identities the certificate carries
+	name          string
+	cert, key, ca string
+	issuer        string   // "self" | "ca" | "other"
+	names         []string // identities the certificate carries
 }
 
 type cliCert struct {
-	name           string
-	cert, key, ca  string
-	issuer         string // "" | "ca" | "other"
-	serverName     string // TLS.ServerName ("" = falls back to the server address)
+	name          string
+	cert, key, ca string
+	issuer        string // "" | "ca" | "other"
+	serverName    string // TLS.ServerName ("" = falls back to the server address)
 }
 
 // runCerts: certificate matrix.  Every server identity / client-certificate requirement against
@@ -34,8 +34,12 @@ func runCerts(cfg *hx.RunCfg) error {
 	}
 	defer pki.Close()
 	cf := &hx.CaseFile{Imports: caseImports, Typ: "case", Tail: caseTail +
-		"Definition NREFUSED := Eval vm_compute in count_if (fun c => match c with CCert _ _ _ _ _ _ false => true | _ => false end) cases.\nPrint NREFUSED.\n" +
-		"Definition NACCEPTED := Eval vm_compute in count_if (fun c => match c with CCert _ _ _ _ _ _ true => true | _ => false end) cases.\nPrint NACCEPTED.\n"}
+		"Definition NREFUSED := Eval vm_compute in count_if (fun c => match c with CCert _ _ _ _ _ _ _ false => true | _ => false end) cases.\nPrint NREFUSED.\n" +
+		"Definition NACCEPTED := Eval vm_compute in count_if (fun c => match c with CCert _ _ _ _ _ _ _ true => true | _ => false end) cases.\nPrint NACCEPTED.\n" +
+		"Definition NQUICREFUSEDNOCERT := Eval vm_compute in count_if (fun c => match c with CCert 3 true _ _ _ _ _ false => true | _ => false end) cases.\nPrint NQUICREFUSEDNOCERT.\n" +
+		"Definition NQUICACCEPTED := Eval vm_compute in count_if (fun c => match c with CCert 3 _ _ _ _ _ _ true => true | _ => false end) cases.\nPrint NQUICACCEPTED.\n" +
+		"Definition NKCPREFUSED := Eval vm_compute in count_if (fun c => match c with CCert 1 _ _ _ _ _ _ false => true | _ => false end) cases.\nPrint NKCPREFUSED.\n" +
+		"Definition NWSREFUSED := Eval vm_compute in count_if (fun c => match c with CCert 2 _ _ _ _ _ _ false => true | _ => false end) cases.\nPrint NWSREFUSED.\n"}
 	good := []string{goodServerName, addrServer, addrRelay}
 	servers := []srvCert{
 		{"self-signed", "", "", "", "self", nil},
@@ -58,10 +62,16 @@ func runCerts(cfg *hx.RunCfg) error {
 	implFail := []map[string]string{}
 	dist := map[string]int{}
 	var samples []string
+	transports := []string{"tcp", "kcp", "websocket", "quic"}
 	for _, sc := range servers {
 		sc := sc
+		kcpPort, quicPort := hx.FreeUDPPort(addrServer), 0
+		for quicPort == 0 || quicPort == kcpPort {
+			quicPort = hx.FreeUDPPort(addrServer)
+		}
 		s, err := hx.StartServer(addrServer, func(c *v1.ServerConfig) {
 			c.Transport.TLS.CertFile, c.Transport.TLS.KeyFile, c.Transport.TLS.TrustedCaFile = sc.cert, sc.key, sc.ca
+			c.KCPBindPort, c.QUICBindPort = kcpPort, quicPort
 		})
 		if err != nil {
 			return fmt.Errorf("start frps (%s): %v", sc.name, err)
@@ -74,61 +84,73 @@ func runCerts(cfg *hx.RunCfg) error {
 			i  int
 			up bool
 		}
-		results := make([]bool, len(clients))
+		results := make([]bool, len(clients)*len(transports))
 		var wg sync.WaitGroup
-		for i, cc := range clients {
-			i, cc := i, cc
-			wg.Add(1)
-			go func() {
-				defer wg.Done()
-				p := &v1.TCPProxyConfig{}
-				p.Name, p.Type = fmt.Sprintf("cm%d", i), "tcp"
-				p.LocalIP, p.LocalPort, p.RemotePort = addrBackend, echo.Port(), 0
-				c, err := s.StartClient([]v1.ProxyConfigurer{p}, nil, func(k *v1.ClientCommonConfig) {
-					t := true
-					k.Transport.TLS.Enable = &t
-					k.Transport.TLS.CertFile, k.Transport.TLS.KeyFile = cc.cert, cc.key
-					k.Transport.TLS.TrustedCaFile, k.Transport.TLS.ServerName = cc.ca, cc.serverName
-				})
-				if err != nil {
-					return
-				}
-				results[i] = c.WaitProxyRunning(p.Name, 1200*time.Millisecond)
-				c.Close()
-			}()
+		for ti, tr := range transports {
+			for i, cc := range clients {
+				i, cc, ti, tr := i, cc, ti, tr
+				wg.Add(1)
+				go func() {
+					defer wg.Done()
+					p := &v1.TCPProxyConfig{}
+					p.Name, p.Type = fmt.Sprintf("cm%d_%d", ti, i), "tcp"
+					p.LocalIP, p.LocalPort, p.RemotePort = addrBackend, echo.Port(), 0
+					c, err := s.StartClient([]v1.ProxyConfigurer{p}, nil, func(k *v1.ClientCommonConfig) {
+						t := true
+						k.Transport.TLS.Enable = &t
+						k.Transport.Protocol = tr
+						switch tr {
+						case "kcp":
+							k.ServerPort = kcpPort
+						case "quic":
+							k.ServerPort = quicPort
+						}
+						k.Transport.TLS.CertFile, k.Transport.TLS.KeyFile = cc.cert, cc.key
+						k.Transport.TLS.TrustedCaFile, k.Transport.TLS.ServerName = cc.ca, cc.serverName
+					})
+					if err != nil {
+						return
+					}
+					results[ti*len(clients)+i] = c.WaitProxyRunning(p.Name, 2500*time.Millisecond)
+					c.Close()
+				}()
+			}
 		}
 		wg.Wait()
 		echo.Close()
 		s.Close()
-		for i, cc := range clients {
-			expName := cc.serverName
-			if expName == "" {
-				expName = addrServer
-			}
-			nameOK := false
-			for _, n := range sc.names {
-				if n == expName {
-					nameOK = true
+		for ti, tr := range transports {
+			for i, cc := range clients {
+				up := results[ti*len(clients)+i]
+				expName := cc.serverName
+				if expName == "" {
+					expName = addrServer
 				}
-			}
-			serverCA := sc.ca != ""
-			cs := fmt.Sprintf("CCert %s %s %s %s %s %s %s", hx.Bool(serverCA), hx.Bool(cc.issuer == "ca"), hx.Bool(cc.cert != ""),
-				hx.Bool(cc.ca != ""), hx.Bool(nameOK), hx.Bool(sc.issuer == "ca"), hx.Bool(results[i]))
-			cf.Cases = append(cf.Cases, cs)
-			dist[fmt.Sprintf("up=%v", results[i])]++
-			if len(samples) < 4 && i == 1 {
-				samples = append(samples, fmt.Sprintf("server %s x client %s => session %v", sc.name, cc.name, results[i]))
-			}
-			// property monitor on the Go side
-			if results[i] && serverCA && cc.issuer != "ca" {
-				implFail = append(implFail, map[string]string{"key": "session-without-acceptable-client-cert",
-					"what": "a server given a trusted CA let a session come up for a client without a certificate of that CA",
-					"case": "server " + sc.name + " x client " + cc.name})
-			}
-			if results[i] && cc.ca != "" && !(nameOK && sc.issuer == "ca") {
-				implFail = append(implFail, map[string]string{"key": "client-accepted-wrong-server-identity",
-					"what": "a client given a trusted CA and server name went on with a server presenting another identity",
-					"case": "server " + sc.name + " x client " + cc.name})
+				nameOK := false
+				for _, n := range sc.names {
+					if n == expName {
+						nameOK = true
+					}
+				}
+				serverCA := sc.ca != ""
+				cs := fmt.Sprintf("CCert %d %s %s %s %s %s %s %s", ti, hx.Bool(serverCA), hx.Bool(cc.issuer == "ca"), hx.Bool(cc.cert != ""),
+					hx.Bool(cc.ca != ""), hx.Bool(nameOK), hx.Bool(sc.issuer == "ca"), hx.Bool(up))
+				cf.Cases = append(cf.Cases, cs)
+				dist[fmt.Sprintf("%s up=%v", tr, up)]++
+				if len(samples) < 4 && i == 1 && ti == 3 {
+					samples = append(samples, fmt.Sprintf("%s: server %s x client %s => session %v", tr, sc.name, cc.name, up))
+				}
+				// property monitor on the Go side
+				if up && serverCA && cc.issuer != "ca" {
+					implFail = append(implFail, map[string]string{"key": "session-without-acceptable-client-cert:" + tr,
+						"what": "a server given a trusted CA let a session come up over " + tr + " for a client without a certificate of that CA (Login and NewProxy were interpreted and answered)",
+						"case": "transport " + tr + ", server " + sc.name + " x client " + cc.name})
+				}
+				if up && cc.ca != "" && !(nameOK && sc.issuer == "ca") {
+					implFail = append(implFail, map[string]string{"key": "client-accepted-wrong-server-identity:" + tr,
+						"what": "a client given a trusted CA and server name went on over " + tr + " with a server presenting another identity",
+						"case": "transport " + tr + ", server " + sc.name + " x client " + cc.name})
+				}
 			}
 		}
 	}
